@@ -5,7 +5,7 @@ package container
 // Contracts for gocv (see /verif/DESIGN.md). Comment-only; compiled only with
 // the build tag "verif".
 
-//@ func container.convertReply props C09
+//@ func container.convertReply props C08 C09
 //@   arith bv
 //@   assigns nothing
 //@   ensures ret.Err != nil ==> result.Error != nil && result.ExecReply == nil && len(result.Error.Msg) > 0
